@@ -13,18 +13,26 @@ func kFlags(c J) interface{} {
 	opts := buildOpts(c["opts"])
 	fv := flag.NewFlagKeyValue(nil, boolD(c, "autoBool", true), opts...)
 	var set []interface{}
+	setErr := []interface{}{}
 	for _, a := range arr(c, "args") {
 		err := fv.Set(a.(string))
 		set = append(set, err != nil)
+		// what the collector holds after this argument
+		if e := fv.Error(); e != nil {
+			setErr = append(setErr, e.Error())
+		} else {
+			setErr = append(setErr, nil)
+		}
 	}
 	if set == nil {
 		set = []interface{}{}
 	}
-	var errv interface{}
+	var errv, errText interface{}
 	if e := fv.Error(); e != nil {
 		ce := canonErr(e).(J)["err"].(J)
 		errv = J{"typed": ce["typed"], "reason": ce["reason"]}
+		errText = e.Error()
 	}
 	col := cfgutil.NewCollector(ucfg.New(), opts...)
-	return J{"config": viewPlain(fv.Config()), "err": errv, "set": set, "optsKept": len(col.GetOptions()) == len(opts)}
+	return J{"config": viewPlain(fv.Config()), "err": errv, "set": set, "setErr": setErr, "errText": errText, "optsKept": len(col.GetOptions()) == len(opts)}
 }
